@@ -12,7 +12,7 @@ AIB = z3.ArraySort(I, B)
 @register
 class FindEdgeFromPathToSegment(Contract):
     fn = "gfapy/line/group/ordered/captured_path.py::CapturedPath._find_edge_from_path_to_segment"
-    props = ("C17",)
+    props = ("C17", "C06")
     fragment = "L"
     doc = ("between the last element x of the walk and the next oriented segment y: the edges of y are searched for those that join x and y "
            "(as written: oriented +; with both ends inverted and exchanged: oriented -); NotFoundError iff no edge fits, NotUniqueError iff two "
